@@ -430,6 +430,19 @@ fn cmd_heap(natives: &[(&'static str, NativeFn)], sess: &mut Session, words: &[&
             sess.set_slot(w(1)?, x)?;
             Ok("ok".to_string())
         },
+        "symprint" => {
+            // intern the PRINTED NAME of the symbol in a slot (for a generated symbol: the text #<symbol-0x…>), as the reader
+            // does when such a text is typed back in
+            let s = sess.slot(w(2)?)?;
+            let name = match s.get() {
+                Some(crate::memory::PrimitiveValue::Symbol(sym)) => sym.get_name(),
+                _ => return Err("symprint: not a symbol".to_string()),
+            };
+            drop(s);
+            let x = sess.mem.symbol_for(&name);
+            sess.set_slot(w(1)?, x)?;
+            Ok("ok".to_string())
+        },
         "gensym" => {
             let x = sess.mem.unique_symbol();
             sess.set_slot(w(1)?, x)?;
